@@ -259,6 +259,12 @@ func run(s Script) (res vt.Result) {
 		}
 		return fmt.Errorf("unknown family %q", s.Family)
 	}()
+	if regErr != nil && s.Family == "gotype" && goUndocumentedIn[s.Type] {
+		// AddTool documents "The In type argument must be a map or a struct": a server that refuses this member
+		// of the family (a pointer In) is within its documentation.
+		res.Class("gotype_rejected_undocumented_in")
+		return
+	}
 	if regErr != nil {
 		res.Failf("harness: registration failed (generated schemas are valid by construction): %v", regErr)
 		return
@@ -375,7 +381,11 @@ func run(s Script) (res vt.Result) {
 			if invoked != 0 {
 				res.Failf("%s: handler ran %d time(s) with arguments that are invalid under the published input schema (%s); it saw %s", tag, invoked, inErrs[0].Msg, seen)
 			}
-			if callErr != nil {
+			if _, isObj := args.(map[string]any); callErr != nil && !isObj {
+				// "arguments" that are no JSON object at all may also be refused before the tool is reached (by the
+				// protocol layer of the server or of the client): the handler did not run, which is what counts.
+				res.Class("in_nonobject_root_protocol_error")
+			} else if callErr != nil {
 				res.Failf("%s: invalid arguments (%s) produced a protocol error instead of a tool-level error result: %v", tag, inErrs[0].Msg, callErr)
 			} else if !result.IsError {
 				res.Failf("%s: invalid arguments (%s) did not produce an error result: %s", tag, inErrs[0].Msg, mustJSON(result))
@@ -458,6 +468,14 @@ func run(s Script) (res vt.Result) {
 		} else if addCand(outVal); outVal == nil {
 			if m, ok := pub.Out.(map[string]any); ok && m["type"] == "object" {
 				addCand(map[string]any{})
+			}
+		} else {
+			// The same coercion below the root (a nil map or slice in a field, where the schema wants an object or
+			// an array) is a further accepted reading: the SDK source announces it (TODO at setSchema).
+			changed := false
+			if cv := coerceNulls(pub.Out, deepCopy(outVal), true, &changed); changed {
+				res.Class("out_nested_null")
+				addCand(cv)
 			}
 		}
 		if ambiguous {
